@@ -54,7 +54,7 @@ pub fn bidir_types() -> Vec<(&'static str, Ty)> {
         ("credentialManagement.Request", cm_request()),
         ("credentialManagement.SubcommandParameters", cm_params()),
         ("largeBlobs.Request", lb_request()),
-        ("getInfo.Response", get_info_response()),
+        ("getInfo.Response", get_info_response_roundtrip()),
         ("getInfo.CtapOptions", ctap_options()),
         ("clientPin.Response", cp_response()),
         ("largeBlobs.Response", lb_response()),
@@ -215,7 +215,7 @@ fn explore_types(ctx: &'static Ctx, prop: &'static str, oracle: Oracle) {
 /// decode, compare with the constructed value
 fn constructed(ctx: &'static Ctx) {
     use ctap_types::ctap2::*;
-    let kinds: [(&str, Ty); 3] = [("getInfo.Response", get_info_response()), ("clientPin.Response", cp_response()), ("largeBlobs.Response", lb_response())];
+    let kinds: [(&str, Ty); 3] = [("getInfo.Response", get_info_response_roundtrip()), ("clientPin.Response", cp_response()), ("largeBlobs.Response", lb_response())];
     for (name, ty) in kinds {
         let plan = Arc::new(Plan::new(&ty, Side::Response));
         let full = plan.full_mask();
